@@ -1,6 +1,7 @@
 package main
 
 import (
+	"golang.org/x/tools/go/cfg"
 	"go/ast"
 	"go/token"
 	"go/types"
@@ -173,4 +174,163 @@ func c13R10(c *Ctx, r *Report) {
 	}
 	r.Floor(rule, nFns, 5, "functions with a re-assigned error variable")
 	r.Note("%s: %d error variables with two or more assignments analysed", rule, nVars)
+}
+
+func init() { lateInits = append(lateInits, func() { props["C13"].Quick = append(props["C13"].Quick, c13R11) }) }
+
+// C13.R11: results of parser functions that can return nil are not dereferenced before a nil test.
+func c13R11(c *Ctx, r *Report) {
+	const rule = "C13.R11"
+	r.Describe(rule, "parser: the result of a parse function that has a `return nil` path is selected from (x.Field, x.Method()) only where x is known to be non-nil")
+	const pkgParser = "internal/frontend/parser"
+	// nil-returning functions of the package (pointer / interface results, explicit `return nil`)
+	nilable := map[*types.Func]bool{}
+	for _, fn := range c.AllFns(pkgParser) {
+		sig := fn.Obj.Type().(*types.Signature)
+		if sig.Results().Len() != 1 {
+			continue
+		}
+		switch sig.Results().At(0).Type().Underlying().(type) {
+		case *types.Pointer, *types.Interface:
+		default:
+			continue
+		}
+		ast.Inspect(fn.Decl.Body, func(x ast.Node) bool {
+			if _, ok := x.(*ast.FuncLit); ok {
+				return false
+			}
+			if ret, ok := x.(*ast.ReturnStmt); ok && len(ret.Results) == 1 && exprStr(ret.Results[0]) == "nil" {
+				nilable[fn.Obj] = true
+			}
+			return true
+		})
+	}
+	r.Floor(rule, len(nilable), 5, "parser functions with a `return nil` path")
+	nSites := 0
+	for _, fn := range c.AllFns(pkgParser) {
+		info := fn.Info()
+		// variables assigned from a nilable call
+		vars := map[types.Object]*ast.CallExpr{}
+		ast.Inspect(fn.Decl.Body, func(x ast.Node) bool {
+			as, ok := x.(*ast.AssignStmt)
+			if !ok || len(as.Lhs) != 1 || len(as.Rhs) != 1 {
+				return true
+			}
+			cl, ok := as.Rhs[0].(*ast.CallExpr)
+			if !ok {
+				return true
+			}
+			if f := callee(info, cl); f != nil && nilable[f] {
+				if id, ok := as.Lhs[0].(*ast.Ident); ok && id.Name != "_" {
+					o := info.Defs[id]
+					if o == nil {
+						o = info.Uses[id]
+					}
+					if o != nil {
+						vars[o] = cl
+					}
+				}
+			}
+			return true
+		})
+		for v, call := range vars {
+			derefs := func(n ast.Node) bool {
+				found := false
+				inspectShallow(n, func(x ast.Node) bool {
+					if sel, ok := x.(*ast.SelectorExpr); ok {
+						if id, ok := ast.Unparen(sel.X).(*ast.Ident); ok && info.Uses[id] == v {
+							found = true
+						}
+					}
+					if st, ok := x.(*ast.StarExpr); ok {
+						if id, ok := ast.Unparen(st.X).(*ast.Ident); ok && info.Uses[id] == v {
+							found = true
+						}
+					}
+					return true
+				})
+				return found
+			}
+			any := false
+			ast.Inspect(fn.Decl.Body, func(x ast.Node) bool {
+				if st, ok := x.(ast.Stmt); ok && derefs(st) {
+					any = true
+				}
+				return true
+			})
+			if !any {
+				continue
+			}
+			nSites++
+			isDef := func(n ast.Node) bool {
+				as, ok := n.(*ast.AssignStmt)
+				if !ok {
+					return false
+				}
+				for _, l := range as.Lhs {
+					if id, ok := l.(*ast.Ident); ok && (info.Defs[id] == v || info.Uses[id] == v) {
+						return true
+					}
+				}
+				return false
+			}
+			hits := mustFlow(c.CFG(fn), FlowSpec{
+				InitTrue: true,
+				Kill:     isDef,
+				EdgeGate: func(b *cfg.Block, succ int) bool {
+					cond := condOf(b)
+					if cond == nil {
+						return false
+					}
+					if succ == 0 {
+						for _, cj := range conjuncts(cond) {
+							if be, ok := isBinOp(cj, token.NEQ); ok && objOf(info, be.X) == v && exprStr(be.Y) == "nil" {
+								return true
+							}
+						}
+					} else {
+						for _, d := range disjuncts(cond) {
+							if be, ok := isBinOp(d, token.EQL); ok && objOf(info, be.X) == v && exprStr(be.Y) == "nil" {
+								return true
+							}
+						}
+					}
+					return false
+				},
+				Target: func(n ast.Node) bool {
+					if isDef(n) {
+						// `x := f(); ` itself is not a dereference; x.f on the RHS of a later assignment is
+						as := n.(*ast.AssignStmt)
+						for _, rh := range as.Rhs {
+							if derefs(rh) {
+								return true
+							}
+						}
+						return false
+					}
+					// a condition `x != nil && x.F` tests before it selects
+					if e, ok := n.(ast.Expr); ok {
+						for _, cj := range conjuncts(e) {
+							if be, ok := isBinOp(cj, token.NEQ); ok && objOf(info, be.X) == v && exprStr(be.Y) == "nil" {
+								return false
+							}
+						}
+						for _, d := range disjuncts(e) {
+							if be, ok := isBinOp(d, token.EQL); ok && objOf(info, be.X) == v && exprStr(be.Y) == "nil" {
+								return false
+							}
+						}
+					}
+					return derefs(n)
+				},
+			})
+			where := c.pos(call.Pos())
+			if len(hits) > 0 && hits[0].Pos.IsValid() {
+				where = c.pos(hits[0].Pos)
+			}
+			r.Check(len(hits) == 0, rule, fn.Name(), "result "+v.Name()+" of "+exprStr(call.Fun)+" tested before it is selected from", where,
+				exprStr(call.Fun)+" returns nil after reporting a syntax error; "+v.Name()+" is then dereferenced on a path without a nil test: the malformed input crashes the compiler instead of producing the diagnostic")
+		}
+	}
+	r.Floor(rule, nSites, 1, "dereferenced results of nil-returning parse functions")
 }
